@@ -43,7 +43,7 @@ def setup():
     np2env.patch()
 
 
-def _mk_original(kind, ns):
+def _mk_original(kind, ns, compressed=False):
     n = len(MAP)
     nc = n + 1
     T = format(ns / 30000.0, ".12f")
@@ -59,7 +59,12 @@ def _mk_original(kind, ns):
     F = fakefs.install(fakefs.FakeFS())
     F.add("/s/probe00/x.imec0.ap.meta", True, len(txt), [{"pos": 0, "text": txt}])
     raw = np2env.raw_array(ns, nc)
-    F.add(ORIG, True, ns * nc * 2, raw)
+    if compressed:
+        # the recording arrives already compressed (.cbin + .ch, no .bin)
+        F.add("/s/probe00/x.imec0.ap.cbin", True, 17, Cbin(raw, True, (ns, nc)))
+        F.add("/s/probe00/x.imec0.ap.ch", True, 11, {"ch_for": "/s/probe00/x.imec0.ap.cbin"})
+    else:
+        F.add(ORIG, True, ns * nc * 2, raw)
     return F, raw, nc
 
 
@@ -162,9 +167,9 @@ def _recoverable_np21_replacement(F, raw):
     return f is not None and bool(f.exists) and isinstance(f.content, Cbin) and f.content.complete and f.content.source is raw
 
 
-def case_history(ctx, kind, ns, fault1, overwrite1, second, third=None, fault2=None):
+def case_history(ctx, kind, ns, fault1, overwrite1, second, third=None, fault2=None, compressed_input=False):
     """run 1 (optionally interrupted at op fault1), then run 2 = second in {None,'F','T'}, run 3 = third"""
-    F, raw, nc = _mk_original(kind, ns)
+    F, raw, nc = _mk_original(kind, ns, compressed=compressed_input)
     opts = {"post_check": bool(ctx.bool("post_check")), "compress": bool(ctx.bool("compress")), "delete_original": bool(ctx.bool("delete_original"))}
     p = ctx.int("p", 0, ns - 1)
     log1 = {}
@@ -316,6 +321,8 @@ def cases(tier):
             cs.append(Case(f"np24_complete_then_fault{k}_thenT", "case_history", {"kind": "NP2.4", "ns": 600, "fault1": None, "overwrite1": False, "second": "T", "third": "T", "fault2": k}, timeout_s=2400))
     for second in (None, "F", "T"):
         cs.append(Case(f"np21_then{second}", "case_history", {"kind": "NP2.1", "ns": 600, "fault1": None, "overwrite1": False, "second": second}, timeout_s=2400))
+    for second in ("F", "T"):
+        cs.append(Case(f"np21_cbin_input_then{second}", "case_history", {"kind": "NP2.1", "ns": 600, "fault1": None, "overwrite1": False, "second": second, "compressed_input": True}, timeout_s=2400))
     cs.append(Case("np21_overwrite_fresh", "case_history", {"kind": "NP2.1", "ns": 600, "fault1": None, "overwrite1": True, "second": None}, timeout_s=2400))
     for k in range(0, 60, b["fault_stride"]):
         cs.append(Case(f"np21_fault{k}_thenT", "case_history", {"kind": "NP2.1", "ns": 600, "fault1": k, "overwrite1": False, "second": "T"}, timeout_s=2400))
@@ -346,7 +353,7 @@ def replay(case, params, cex):
     opts = {"post_check": bool(m.get("post_check")), "compress": bool(m.get("compress")), "delete_original": bool(m.get("delete_original"))}
     kind, ns = params.get("kind", "NP2.4"), params["ns"]
     fault1, ow1, second, third = params.get("fault1"), params.get("overwrite1", False), params.get("second"), params.get("third")
-    full = _replay_text(cex, opts, kind, ns, fault1, ow1, second, third)
+    full = _replay_text(cex, opts, kind, ns, fault1, ow1, second, third, compressed=bool(params.get("compressed_input")))
     if "failed_verification" in case:
         return full.split("from symex import realfault")[0] + f"""
 shank = {params['shank']}
@@ -397,7 +404,7 @@ not_reproduced()
     return full
 
 
-def _replay_text(cex, opts, kind, ns, fault1, ow1, second, third):
+def _replay_text(cex, opts, kind, ns, fault1, ow1, second, third, compressed=False):
     return f"""
 import sys, tempfile, pathlib, shutil, hashlib, builtins, os
 sys.path.insert(0, '/verif')
@@ -414,6 +421,8 @@ elif kind == 'split': txt = np2env.np24_meta_text(n, MAP, T, extra=extra + ['NP2
 elif kind == 'NP2.1': txt = sglx.imec_meta_text('NP2.1', [(0, i % 2, i // 2) for i in range(n)], ns=T, fs_hz='30000', extra=extra)
 else: txt = sglx.imec_meta_text('3B2', [(0, i % 2, i // 2) for i in range(n)], ns=T, fs_hz='30000', extra=extra)
 (d / 'x.imec0.ap.meta').write_text(txt); data.tofile(d / 'x.imec0.ap.bin')
+if {compressed}:        # the recording arrives already compressed
+    _sr = spikeglx.Reader(d / 'x.imec0.ap.bin'); _sr.compress_file(keep_original=False); _sr.close()
 orig = d / 'x.imec0.ap.bin'
 def listing():
     return sorted((str(p.relative_to(root)), p.stat().st_size) for p in root.rglob('*') if p.is_file())
@@ -472,6 +481,7 @@ if not recoverable(): bad.append('original not recoverable after run 1')
 if not isinstance(r1, Exception):
     if kind == 'NP1' and r1 != -1: bad.append('NP1 status')
     if kind == 'split' and r1 != 0: bad.append('already split status')
+    if kind in ('split', 'NP1') and listing() != before: bad.append(f'a run that must do nothing changed the files on disk: {{sorted(set(listing()) ^ set(before))[:6]}}')
     if kind == 'NP2.4' and not orig.exists() and not (opts['post_check'] and opts['delete_original']): bad.append('original deleted without verification')
 if second is not None and (orig.exists() or kind != 'NP2.4'):
     before = listing()
